@@ -19,6 +19,10 @@ import (
 type c15opts struct {
 	raw, raw0, join, compact, tab, exit, null, slurp bool
 	indent                                           int // -1: not given
+	rawIn                                            bool
+	arg, argjson                                     [][2]string // --arg k v / --argjson k text
+	positional                                       []string    // after --args or --jsonargs
+	jsonargs                                         bool
 }
 
 var c15cur c15opts
@@ -42,7 +46,22 @@ func (o c15opts) args(query string) []string {
 	if o.indent >= 0 {
 		a = append(a, "--indent", strconv.Itoa(o.indent))
 	}
+	add(o.rawIn, "-R")
+	for _, kv := range o.arg {
+		a = append(a, "--arg", kv[0], kv[1])
+	}
+	for _, kv := range o.argjson {
+		a = append(a, "--argjson", kv[0], kv[1])
+	}
 	a = append(a, "-M", query)
+	if len(o.positional) > 0 {
+		if o.jsonargs {
+			a = append(a, "--jsonargs")
+		} else {
+			a = append(a, "--args")
+		}
+		a = append(a, o.positional...)
+	}
 	return a
 }
 
@@ -56,6 +75,26 @@ func hStub_parseFlags(args []string, opts any) ([]string, error) {
 		n := c.indent
 		o.OutputIndent = &n
 	}
+	o.InputRaw = c.rawIn
+	for _, kv := range c.arg {
+		if o.Arg == nil {
+			o.Arg = map[string]string{}
+		}
+		o.Arg[kv[0]] = kv[1]
+	}
+	for _, kv := range c.argjson {
+		if o.ArgJSON == nil {
+			o.ArgJSON = map[string]string{}
+		}
+		o.ArgJSON[kv[0]] = kv[1]
+	}
+	for _, p := range c.positional {
+		if c.jsonargs {
+			o.JSONArgs = append(o.JSONArgs, p)
+		} else {
+			o.Args = append(o.Args, p)
+		}
+	}
 	return []string{c15query}, nil
 }
 
@@ -63,7 +102,7 @@ func hOsStat(string) (os.FileInfo, error)   { return nil, errors.New("no such fi
 func hOsUserHomeDir() (string, error)       { return "/v/home", nil }
 func hOsGetenv(string) string               { return "" }
 
-var c15Queries = []string{`.`, `.[]`, `empty`, `error`, `.[] | if . then . else error end`, `halt`, `halt_error`, `halt_error(3)`, `"a", halt`, `., .`, `.[]?`, `error("x")`, `"x\u0000y"`, `null`, `false, 1`, `1, null`, `"s"`, `[.]`, `{a: .}`, `halt_error(257)`, `(1, error("e"), 2)`, `"ok" | halt_error(0)`, `{"m":1} | halt_error`, `input`, `[inputs]`}
+var c15Queries = []string{`if . == 1 then error("x") else "bye\n" | halt_error(3) end`, `if . == 1 then error else halt end`, `"\u0000"`, `"\u0000xy", 1`, `"a", "\u0000", "b"`, `.`, `.[]`, `empty`, `error`, `.[] | if . then . else error end`, `halt`, `halt_error`, `halt_error(3)`, `"a", halt`, `., .`, `.[]?`, `error("x")`, `"x\u0000y"`, `null`, `false, 1`, `1, null`, `"s"`, `[.]`, `{a: .}`, `halt_error(257)`, `(1, error("e"), 2)`, `"ok" | halt_error(0)`, `{"m":1} | halt_error`, `input`, `[inputs]`}
 
 var c15Inputs = []string{``, `1`, `null`, `"s"`, `[1,null]`, `[true,false]`, `{"a":[1]}`, `1 2`, `"a" [] 3`, `1 x`, `[1] } 2`, `"a\u0000b"`, `false`}
 
@@ -94,22 +133,29 @@ func c15Render(v any, o c15opts) (string, bool) {
 func H_C15_run() {
 	o := c15opts{indent: -1}
 	o.raw, o.raw0, o.join = nondetBool(), nondetBool(), nondetBool()
-	switch nondetChoice(4) {
-	case 1:
-		o.compact = true
-	case 2:
-		o.tab = true
-	case 3:
-		if vparam("allindents", 0) == 1 {
-			o.indent = nondetChoice(10)
-		} else {
-			o.indent = []int{0, 7}[nondetChoice(2)]
-		}
-	}
+	o.compact = nondetBool()
 	o.exit, o.null, o.slurp = nondetBool(), nondetBool(), nondetBool()
 	qi := nondetChoice(vparam("queries", len(c15Queries)))
-	query := c15Queries[qi]
-	stdin := c15Inputs[nondetChoice(vparam("inputs", len(c15Inputs)))]
+	c15Check(o, c15Queries[qi], c15Inputs[nondetChoice(vparam("inputs", len(c15Inputs)))])
+}
+
+// H_C15_format: every combination of the format options (they are not exclusive: --tab
+// wins over --indent, -c over both) x terminator options x values of every shape.
+func H_C15_format() {
+	o := c15opts{indent: -1}
+	o.raw, o.raw0, o.join = nondetBool(), nondetBool(), nondetBool()
+	o.compact, o.tab = nondetBool(), nondetBool()
+	if vparam("allindents", 0) == 1 {
+		o.indent = nondetChoice(11) - 1
+	} else {
+		o.indent = []int{-1, 0, 3, 7}[nondetChoice(4)]
+	}
+	queries := []string{`.`, `.[]`, `{a: .}`, `[., [.]]`, `"s", .`, `{"k": {"l": [1, {"m": .}]}}`}
+	inputs := []string{`[1,null]`, `{"a":[1]}`, `"a\u0000b"`, `[[],{}]`, `"s"`}
+	c15Check(o, queries[nondetChoice(len(queries))], inputs[nondetChoice(len(inputs))])
+}
+
+func c15Check(o c15opts, query, stdin string) {
 	vlabel("query", query)
 	vlabel("stdin", stdin)
 	c15cur, c15query = o, query
@@ -255,4 +301,70 @@ func (it *c15iter) Next() (any, bool) {
 	}
 	it.i++
 	return it.vals[it.i-1], true
+}
+
+// ---- C16: argument flags mean what the same text means as an input ----
+
+func c15Invoke(o c15opts, query, stdin string) (string, int) {
+	c15cur, c15query = o, query
+	var out, errOut bytes.Buffer
+	c := &cli{inStream: strings.NewReader(stdin), outStream: &out, errStream: &errOut}
+	status := c.run(o.args(query))
+	return out.String(), status
+}
+
+var c16ArgTexts = []string{`1`, `12345678901234567890`, `1.0`, `"s"`, `[1,{"a":null}]`, `1e1000`, `-0`, `{"b":2,"a":[1.50]}`, `x`, `[1,`, `100000000000000000000000000000000000001`, `0.1e-2`, `null`, `true`}
+
+// H_C16_args: `--jsonargs T` / `--argjson j T` bind the value that the text T yields as an
+// input document (same printed form, same failure), `--args v` / `--arg k v` bind the
+// string v; $ARGS.named / $ARGS.positional have the documented shape.
+func H_C16_args() {
+	base := c15opts{indent: -1, compact: true}
+	t := c16ArgTexts[nondetChoice(len(c16ArgTexts))]
+	vlabel("text", t)
+	// what the text means as an input document
+	wantOut, wantStatus := c15Invoke(base, `.`, t)
+	switch nondetChoice(4) {
+	case 0:
+		o := base
+		o.null, o.jsonargs, o.positional = true, true, []string{`7`, t}
+		got, status := c15Invoke(o, `$ARGS.positional[1]`, ``)
+		vassert((status == 0) == (wantStatus == 0), "--jsonargs accepts exactly the texts that are accepted as input")
+		if status == 0 && wantStatus == 0 {
+			vassert(got == wantOut, "--jsonargs binds the value the text yields as an input document")
+			shape, _ := c15Invoke(o, `[($ARGS.positional | length), ($ARGS.named | length), ($ARGS | keys)]`, ``)
+			vassert(shape == "[2,0,[\"named\",\"positional\"]]\n", "$ARGS has the documented shape")
+		}
+		vreach("jsonargs")
+	case 1:
+		o := base
+		o.null, o.argjson = true, [][2]string{{"j", t}, {"other", `0`}}
+		got, status := c15Invoke(o, `$j`, ``)
+		vassert((status == 0) == (wantStatus == 0), "--argjson accepts exactly the texts that are accepted as input")
+		if status == 0 && wantStatus == 0 {
+			vassert(got == wantOut, "--argjson binds the value the text yields as an input document")
+			named, _ := c15Invoke(o, `$ARGS.named.j`, ``)
+			vassert(named == wantOut, "$ARGS.named holds the same value")
+		}
+		vreach("argjson")
+	case 2:
+		// strings: the bound value prints as the text read raw
+		o := base
+		o.null, o.positional = true, []string{t, `z`}
+		got, status := c15Invoke(o, `$ARGS.positional[0]`, ``)
+		r := base
+		r.rawIn = true
+		want, _ := c15Invoke(r, `.`, t)
+		vassert(status == 0 && got == want, "--args binds the strings as they are")
+		vreach("args")
+	default:
+		o := base
+		o.null, o.arg = true, [][2]string{{"k", t}}
+		got, status := c15Invoke(o, `[$k, $ARGS.named.k] | unique | .[]`, ``)
+		r := base
+		r.rawIn = true
+		want, _ := c15Invoke(r, `.`, t)
+		vassert(status == 0 && got == want, "--arg binds the string as it is, also in $ARGS.named")
+		vreach("arg")
+	}
 }
